@@ -773,7 +773,9 @@ pub fn diagnostic_display_input<W: std::fmt::Write>(w: &mut W, input: &Inp) -> R
         Inp::Star => write!(w, r#"*"#)?,
         Inp::Command { cmd, .. } => write!(w, r#"{{{{{{ {cmd} }}}}}}"#)?,
         Inp::Compadd { cmd, .. } => write!(w, r#"{{{{{{ {cmd} }}}}}}compadd"#)?,
-        Inp::Subword { .. } => unreachable!(),
+        // A within-word expression has no text of its own to show; it can still be part of the
+        // path that leads to an offending literal, so it must not be a panic.
+        Inp::Subword { .. } => write!(w, r#"<...>"#)?,
     }
     Ok(())
 }
